@@ -144,6 +144,7 @@ theorem fold_stage_none (W : World) (hl : W.lim = false) {miss : Bool} {n : Name
       (evalEdge W.senv fuel (ownersOf W.D none) n params (.fold fds) child none
         (absL W base L c)).toOption := by
   obtain ⟨fromV, hfromV⟩ := Option.isSome_iff_exists.1 facts.fromV
+  rw [← facts.from_] at hfromV
   obtain ⟨rootV, evs', sfs, _, hrootV, hrootVid, hflt⟩ := hcertIn.dest
   have hpost : f.post = [] := by
     rcases facts.guard with h | h
@@ -176,8 +177,9 @@ theorem fold_stage_none (W : World) (hl : W.lim = false) {miss : Bool} {n : Name
     simp only [stageO]
     rw [computeFold_single W hl (k + 1) f c hfromV facts.imports hvf]
     simp only [Data.nbrsOpt, foldStart, List.map_nil, hcomp, R.bind_ok]
-    rw [foldFinish_none W f _ [] (by exact hvf) (foldCount?_none_of_fresh c f.eid hfresh)
-      facts.imports hpost, foldOutputs_default W f none (Or.inl rfl)]
+    rw [foldFinish_none W f { c with active := none } [] hvf
+      (foldCount?_none_of_fresh c f.eid hfresh) facts.imports hpost,
+      foldOutputs_default W f none (Or.inl rfl)]
     simp only [R.bind_ok, Option.map_none]
     rw [mergeFolded_fresh]
     · rfl
@@ -200,9 +202,10 @@ theorem fold_stage_none (W : World) (hl : W.lim = false) {miss : Bool} {n : Name
         (List.mem_flatMap.2 ⟨.fold e', mem_flds.1 he', hne'⟩) _ hpn rfl
   rw [hI, evalEdge_fold_none]
   -- the result context stands for the specification's assignment
-  set news := f.fouts.map (fun n => ((f.eid, n), (none : Option Value))) ++
+  obtain ⟨news, hnews⟩ : ∃ news, news = f.fouts.map (fun n => ((f.eid, n), (none : Option Value))) ++
       f.component.outputs.map (fun o => ((f.eid, o.name), none)) ++
-      (nestedKeys f.component).map fun k => (k, none) with hnews
+      (nestedKeys f.component).map fun k => (k, none) := ⟨_, rfl⟩
+  rw [← hnews]
   have hnk : (news.map (·.1)).Perm (W.FK f.eid) := by
     rw [facts.fk, hnews]
     simp [foldKeys, Function.comp_def]
@@ -249,5 +252,249 @@ theorem fold_stage_none (W : World) (hl : W.lim = false) {miss : Bool} {n : Name
   simp only [R.toOption_ok]
   rw [← habs]
   refine SimO.single _ ⟨Ext.foldDone c none f.eid none news, hi.foldDone none f.eid none news hnk, rfl⟩
+
+end TF.InterpSpec
+
+namespace TF.InterpSpec
+open TF TF.Engine TF.Spec
+
+/-- The hypotheses of the simulation of the fold's component, derived from the outer ones. -/
+theorem simHyps_inner (W : World) {miss : Bool} {n : Name} {params : Params}
+    {fds : List FDir} {child : QNode} {vid : Vid} {L : List Ev} {f : Fold} {ssIn : List Stage}
+    {evsIn : List Ev} (facts : FoldFacts W miss n params fds child vid L f ssIn evsIn)
+    (base : List (Name × Tagged)) (c : Ctx) (hs : SimHyps W base (L ++ [.fold f.eid]))
+    (hndIn : (evsIn.map evVid).Nodup) :
+    SimHyps (W.inner f) (absL W base L c).tags evsIn := by
+  refine ⟨hndIn, ?_, ?_, facts.keysIn⟩
+  · rw [absL_tagNames]
+    have htn := hs.tn
+    rw [deepTagNames_append] at htn
+    simp only [deepTagNames, List.flatMap_cons, List.flatMap_nil,
+      List.append_nil, evDeepTagNames] at htn
+    -- base ++ deep L ++ (CT ++ IT)  ⊇  base ++ tagNames L ++ IT
+    have hsub : (base.map (·.1) ++ tagNames W L ++ W.IT f.eid).Sublist
+        (base.map (·.1) ++ (List.flatMap (evDeepTagNames W) L ++ (W.CT f.eid ++ W.IT f.eid))) := by
+      rw [List.append_assoc]
+      refine List.Sublist.append (List.Sublist.refl _) ?_
+      exact List.Sublist.append (tagNames_sublist_deep W L) (List.sublist_append_right _ _)
+    have hnd := List.Nodup.sublist hsub htn
+    exact (List.Perm.append_left _ facts.itPerm).nodup_iff.2 hnd
+  · refine facts.onPerm.nodup_iff.2 ?_
+    have hon := hs.on
+    simp only [outNamesL, List.flatMap_append, List.flatMap_cons, List.flatMap_nil,
+      List.append_nil, evOutNames] at hon
+    rw [← facts.on]
+    exact (List.nodup_append.1 (List.nodup_append.1 hon).2.1).2.1
+
+/-- The fold stage for a context whose source vertex exists. -/
+theorem fold_stage_some (W : World) (hl : W.lim = false) {miss : Bool} {n : Name} {params : Params}
+    {fds : List FDir} {child : QNode} {vid : Vid} {L : List Ev} {f : Fold} {ssIn : List Stage}
+    {evsIn : List Ev} (facts : FoldFacts W miss n params fds child vid L f ssIn evsIn)
+    (hcertIn : NodeCert (W.inner f) false child f.toVid [] ssIn evsIn)
+    (fuel k : Nat) (hvisitIn : VisitOK [f.toVid] ssIn)
+    (hnilIn : ∀ s ∈ ssIn, StageNil (W.inner f) k s) (hndIn : (evsIn.map evVid).Nodup)
+    (hin : ∀ (base' : List (Name × Tagged)) (c0 : Ctx), Inv (W.inner f) c0 [] → c0.active.isSome →
+      SimHyps (W.inner f) base' evsIn →
+      SimO (absL (W.inner f) base' evsIn) (fun c' => Inv (W.inner f) c' evsIn)
+        (nodeO (W.inner f) k f.toVid ssIn c0)
+        (evalNode W.senv fuel child c0.active (absL (W.inner f) base' [] c0)).toOption)
+    (base : List (Name × Tagged)) (c : Ctx) (x : VertexId) (hi : Inv W c L)
+    (hvL : Ev.vtx vid ∈ L) (hv : c.vertexAt? vid = some (some x))
+    (hs : SimHyps W base (L ++ [.fold f.eid])) :
+    SimO (absL W base (L ++ [.fold f.eid]))
+      (fun c' => Ext c c' ∧ Inv W c' (L ++ [.fold f.eid]) ∧ c'.active = some x)
+      (stageO W (k + 1) (.fold f) c)
+      (evalEdge W.senv fuel (ownersOf W.D (some x)) n params (.fold fds) child (some x)
+        (absL W base L c)).toOption := by
+  obtain ⟨fromV, hfromV⟩ := Option.isSome_iff_exists.1 facts.fromV
+  have hfromV' : W.comp.vertex? f.fromVid = some fromV := by rw [facts.from_]; exact hfromV
+  obtain ⟨rootV, evs', sfs, _, hrootV, hrootVid, hflt⟩ := hcertIn.dest
+  have hfresh : f.eid ∉ fkeys c := by
+    rw [hi.fk]
+    intro hm
+    have hnd := hs.evNodup
+    rw [List.nodup_append] at hnd
+    exact hnd.2.2 _ (mem_flds.1 hm) _ (List.mem_singleton.2 rfl) rfl
+  have hkOK : KeysOK W L := hs.prefix.keys
+  have hkE : ((W.FK f.eid).map (·.2)).Perm (W.CO f.eid ++ W.ON f.eid) :=
+    hs.keys f.eid (by simp)
+  have hsIn := simHyps_inner W facts base c hs hndIn
+  have hvf : c.vertexAt? f.fromVid = some (some x) := by rw [facts.from_]; exact hv
+  have hfrNames : ∀ m ∈ W.CO f.eid ++ W.ON f.eid, m ∉ fvNames c := by
+    intro m hm hmem
+    have hmem' := (hi.names hkOK).mem_iff.1 hmem
+    obtain ⟨e', he', hne'⟩ := List.mem_flatMap.1 hmem'
+    have hon := hs.on
+    simp only [outNamesL, List.flatMap_append, List.flatMap_cons, List.flatMap_nil,
+      List.append_nil, evOutNames] at hon
+    exact (List.nodup_append.1 hon).2.2 _
+      (List.mem_flatMap.2 ⟨.fold e', mem_flds.1 he', hne'⟩) _ hm rfl
+  have hnamesNd : (W.CO f.eid ++ W.ON f.eid).Nodup := by
+    have hon := hs.on
+    simp only [outNamesL, List.flatMap_append, List.flatMap_cons, List.flatMap_nil,
+      List.append_nil, evOutNames] at hon
+    exact (List.nodup_append.1 hon).2.1
+  -- the neighbours
+  have hns : specNbrs W.senv (ownersOf W.D (some x)) n params (some x) =
+      W.D.nbrsOpt (some x) f.name f.params := by
+    simp only [specNbrs, ownersOf, Data.nbrsOpt, World.senv_data, facts.name]
+    exact facts.params x
+  -- the sub-component, context by context
+  have hroot' : (W.inner f).comp.vertex? (W.inner f).comp.root = some rootV := by
+    show f.component.vertex? f.component.root = some rootV
+    rw [facts.root]; exact hrootV
+  have hent := enterVertex_nil (W.inner f) f.toVid rootV hrootV hrootVid _ sfs hflt
+  have hcc : ∀ cs0, (computeComponent W.env (k + 1) f.component cs0).toOption =
+      flatMapO (nodeO (W.inner f) k f.toVid ssIn) cs0 := by
+    intro cs0
+    have := computeComponent_eq (W.inner f) k rootV ssIn hroot' facts.merge
+      (by show VisitOK [f.component.root] ssIn; rw [facts.root]; exact hvisitIn) hnilIn cs0
+    rw [show (W.inner f).env = W.env from rfl, show (W.inner f).comp = f.component from rfl] at this
+    rw [this, Hom.eq_flatMapO (enterVertex_hom W.env f.component rootV)
+      (by rw [show W.env = (W.inner f).env from rfl, show f.component = (W.inner f).comp from rfl,
+        hent]; rfl)]
+    have hl' : runO (W.inner f) k ssIn = flatMapO (fun c' => runO (W.inner f) k ssIn [c']) :=
+      funext (runO_linear (W.inner f) k ssIn)
+    rw [hl', flatMapO_assoc]
+    apply flatMapO_congr
+    intro c0 _
+    simp only [nodeO]
+    rw [show (W.inner f).comp.vertex? f.toVid = some rootV from hrootV, ← hl']
+    rfl
+  obtain ⟨a, ha⟩ : ∃ a, a = absL W base L c := ⟨_, rfl⟩
+  have hsimIn : SimO (absL (W.inner f) a.tags evsIn) (fun c' => Inv (W.inner f) c' evsIn)
+      (computeComponent W.env (k + 1) f.component
+        (foldStart { c with active := some x } (W.D.nbrsOpt (some x) f.name f.params))).toOption
+      (flatMapO (fun m => (evalNode W.senv fuel child (some m) { tags := a.tags, outs := [] }).toOption)
+        (W.D.nbrsOpt (some x) f.name f.params)) := by
+    rw [hcc]
+    simp only [foldStart, flatMapO_map]
+    apply SimO.flatMapO
+    intro m _
+    have := hin a.tags { Ctx.new (some m) with importedTags := c.importedTags }
+      ⟨rfl, rfl, by simp [fvKeys, Ctx.new]⟩ rfl (by rw [ha]; exact hsIn)
+    rw [absL_nil] at this
+    exact this
+  rw [evalEdge_fold_some, hns, ← ha]
+  simp only [stageO]
+  rw [computeFold_single W hl (k + 1) f c hfromV' facts.imports hvf]
+  revert hsimIn
+  generalize hCC : computeComponent W.env (k + 1) f.component
+    (foldStart { c with active := some x } (W.D.nbrsOpt (some x) f.name f.params)) = CC
+  generalize flatMapO (fun m => (evalNode W.senv fuel child (some m)
+    { tags := a.tags, outs := [] }).toOption) (W.D.nbrsOpt (some x) f.name f.params) = SS
+  intro hsimIn
+  cases CC with
+  | panic s => cases SS <;> simp_all [SimO]
+  | fuel => cases SS <;> simp_all [SimO]
+  | ok computed =>
+    cases SS with
+    | none => simp [SimO] at hsimIn
+    | some elems =>
+      obtain ⟨helems, hinv⟩ := hsimIn
+      have hlen : elems.length = computed.length := by rw [helems]; simp
+      simp only [R.bind_ok, Option.bind_some, hlen]
+      rw [foldFinish_some W f { c with active := some x } computed hvf
+        (foldCount?_none_of_fresh c f.eid hfresh) facts.imports]
+      -- post-filters
+      obtain ⟨c1, hc1⟩ : ∃ c1 : Ctx, c1 = { ({ c with active := some x } : Ctx) with
+          foldCounts := c.foldCounts ++ [(f.eid, some computed.length)] } := ⟨_, rfl⟩
+      have hc1' : ({ ({ c with active := some x } : Ctx) with
+          foldCounts := ({ c with active := some x } : Ctx).foldCounts ++
+            [(f.eid, some computed.length)] } : Ctx) = c1 := by rw [hc1]
+      rw [hc1']
+      have hext1 : Ext c c1 := by
+        rw [hc1]; exact ⟨⟨[], by simp⟩, ⟨[(f.eid, some computed.length)], rfl⟩, ⟨[], by simp⟩, rfl, rfl⟩
+      have hact1 : c1.active = some x := by rw [hc1]
+      have hlookx : look c vid = some x := by unfold look; rw [hv]; rfl
+      have hcnt1 : c1.foldCount? f.eid = some (some computed.length) := by
+        rw [hc1]
+        unfold Engine.Ctx.foldCount?
+        simp only
+        rw [List.find?_append]
+        have : List.find? (fun p => p.1 == f.eid) c.foldCounts = none := by
+          rw [List.find?_eq_none]
+          intro p hp hpe
+          apply hfresh
+          exact List.mem_map.2 ⟨p, hp, by simpa using hpe⟩
+        simp [this]
+      have hsem := tagSem_post W base (c := c) (c1 := c1) (u := vid) hfromV hi hvL hext1
+        (by rw [hact1, hlookx]) hs.prefix.tagNodup
+        ((countTagNames fds).map fun m => (m, Tagged.some (Value.uint64 (UInt64.ofNat computed.length))))
+        a.outs
+      have hsem' : TagSem W f.fromVid c1
+          ⟨(absL W base L c).tags ++ (countTagNames fds).map fun m =>
+            (m, Tagged.some (Value.uint64 (UInt64.ofNat computed.length))), a.outs⟩
+          (TRefAt W vid L) := by rw [facts.from_]; exact hsem
+      have hpostsem := applyPostFilters_sem W f (TRefAt W vid L) c1 _ hsem' hcnt1
+        (countFilterPairs fds) f.post facts.post
+      rw [hact1, ← ha] at hpostsem
+      revert hpostsem
+      generalize hAP : applyPostFilters W.env W.comp f f.post c1 = AP
+      generalize hFH : filtersHold W.senv
+        { tags := a.tags ++ List.map (fun m =>
+            (m, Tagged.some (Value.uint64 (UInt64.ofNat computed.length)))) (countTagNames fds),
+          outs := a.outs } (some x) (Value.uint64 (UInt64.ofNat computed.length))
+        (countFilterPairs fds) = FH
+      intro hpostsem
+      rcases FH with (_ | _) | _ | _
+      · -- a post-filter fails: the context is dropped
+        have : AP = .ok none := by
+          cases AP with
+          | ok o => simp [optCtx] at hpostsem; rw [hpostsem]
+          | panic s => simp at hpostsem
+          | fuel => simp at hpostsem
+        rw [this]
+        simp only [R.bind_ok, R.toOption_ok, Option.toList, Option.bind_some, Bool.false_eq_true,
+          if_false]
+        exact SimO.nil _ _
+      · -- all post-filters hold
+        have : AP = .ok (some c1) := by
+          cases AP with
+          | ok o => simp [optCtx] at hpostsem; rw [hpostsem]
+          | panic s => simp at hpostsem
+          | fuel => simp at hpostsem
+        rw [this]
+        simp only [R.bind_ok, R.toOption_ok, Option.bind_some, if_true]
+        obtain ⟨news, hfo, hnk, hco, hon⟩ := fold_outputs_match W f fds child ssIn evsIn a.tags computed
+          facts.fouts facts.outs facts.nested facts.onPerm facts.keysIn hsIn.on hinv
+        rw [hfo, R.bind_ok]
+        have hnk' : (news.map (·.1)).Perm (W.FK f.eid) := by rw [facts.fk]; exact hnk
+        have hnn := foldKeys_names W f.eid hkE news hnk'
+        have hnnd : (news.map (·.1.2)).Nodup := hnn.nodup_iff.2 hnamesNd
+        have hfv1 : fvNames c1 = fvNames c := by rw [hc1]; rfl
+        rw [mergeFolded_fresh c1 news (fun p hp => by
+          rw [hfv1]; exact hfrNames _ (hnn.mem_iff.1 (List.mem_map.2 ⟨p, hp, rfl⟩)))]
+        have hc4 : ({ c1 with foldedValues := c1.foldedValues ++ news } : Ctx) =
+            foldDone c (some x) f.eid (some computed.length) news := by rw [hc1]; rfl
+        rw [hc4]
+        simp only [R.bind_ok, R.toOption_ok, Option.toList]
+        have habs : absL W base (L ++ [.fold f.eid])
+            (foldDone c (some x) f.eid (some computed.length) news) =
+            foldAsg a fds (outNames child) elems := by
+          rw [absL_foldDone W base hi hkOK (some x) f.eid (some computed.length) news hfresh, ← ha]
+          simp only [foldAsg, facts.ct, cntTag, hlen, facts.co, facts.on]
+          congr 1
+          rw [List.map_append, List.append_assoc]
+          congr 2
+          · apply List.map_congr_left
+            intro m hm
+            obtain ⟨key, hkey⟩ := hco m hm
+            rw [valByName_foldDone c (some x) f.eid _ news m key _
+              (hfrNames m (by rw [facts.co]; exact List.mem_append_left _ hm)) hnnd hkey]
+            rfl
+          · apply List.map_congr_left
+            intro m hm
+            obtain ⟨key, hkey⟩ := hon m hm
+            rw [valByName_foldDone c (some x) f.eid _ news m key _
+              (hfrNames m (by rw [facts.on]; exact List.mem_append_right _ hm)) hnnd hkey]
+            simp only [Option.getD_some, specList, helems, List.map_map, Function.comp_def]
+        rw [← habs]
+        exact SimO.single _ ⟨Ext.foldDone c (some x) f.eid _ news,
+          hi.foldDone (some x) f.eid _ news hnk', rfl⟩
+      · have : AP.toOption = none := by simpa using hpostsem
+        cases AP <;> simp_all [SimO]
+      · have : AP.toOption = none := by simpa using hpostsem
+        cases AP <;> simp_all [SimO]
 
 end TF.InterpSpec
